@@ -31,8 +31,9 @@ def KernelRow.ghostOk (r : KernelRow) : Bool :=
     offs.foldl (fun a o => o.foldl (fun b x => max b x.natAbs) a) acc) 0
   m == r.ghost
 
-/-- the thread request reaches the kernel configuration unchanged -/
+/-- the kernel configuration receives the thread request unchanged or an explicit serial setting (the
+O(N) boundary setters inside wrappers are deliberately serial), never a different count -/
 def KernelRow.threadsForwarded (r : KernelRow) : Bool :=
-  r.threads.all fun (a, b) => a == b
+  r.threads.all fun (a, b) => a == b || b == "False"
 
 end Sopht
